@@ -1,7 +1,8 @@
 """Write-session and read-session executors over the simulated device (engines ``wsim`` / ``rsim`` building blocks).
 
 A *session recipe* is JSON:  {"mode": "w"|"x"|"a", "chain": chain|None, "password": str|None,
- "header": "raw"|"enc"|"crypt", "header_via": "ctor"|"setter", "ops": [op, ...], "close": "close"|"ctx"}
+ "header": "raw"|"enc"|"crypt", "header_via": "ctor"|"setter", "header_extra": [["encoded"|"encrypted", bool], ...] (optional, mode-preserving),
+ "ops": [op, ...], "close": "close"|"ctx"}
 op = {"op": "writestr", "name": str, "content": rc, "as": "bytes"|"bytearray"|"memoryview"|"str"}
    | {"op": "writef", "name": str, "content": rc, "bio": "bytesio"|"buffered", "offset": int}
 """
@@ -90,6 +91,8 @@ def run_write_session(fs: SimFS, sess: dict, kind: str = "path", bufsize: int = 
             z.set_encoded_header_mode(False)
         elif hdr == "crypt" and sess.get("header_via") == "setter":
             z.set_encrypted_header(True)
+        for which, arg in sess.get("header_extra") or []:
+            (z.set_encoded_header_mode if which == "encoded" else z.set_encrypted_header)(arg)
         first = True
         for i, op in enumerate(sess["ops"]):
             data = content_bytes(op) if "content" in op else None
@@ -377,7 +380,21 @@ def gen_session(rng, mode, knobs, used_names=(), nmax=4, maxlen=65536, password=
         "mode": mode, "chain": chain, "password": password, "header": hdr, "header_via": rng.pick(["ctor", "setter"]),
         "ops": gen_ops(rng, n, knobs, set(used_names), maxlen=maxlen, minlen=minlen, name_style=name_style, safe_prefix=safe_prefix),
     }
+    extra = gen_header_extra(rng.sub("header_extra"), hdr)
+    if extra:
+        sess["header_extra"] = extra
     return sess
+
+
+def gen_header_extra(rx, hdr, p=0.3):
+    """Further setter calls that are legal and, by the documented meaning of the two setters, leave the header mode as it is."""
+    if not rx.chance(p):
+        return None
+    return rx.pick({
+        "crypt": [[["encoded", True]], [["encrypted", True]], [["encoded", True], ["encoded", True]]],
+        "enc": [[["encoded", True]], [["encrypted", False]], [["encrypted", True], ["encrypted", False]]],
+        "raw": [[["encrypted", False]], [["encoded", True], ["encoded", False]], [["encoded", False]]],
+    }[hdr])
 
 
 def session_names(sess):
